@@ -205,7 +205,7 @@ func slowPathDispatchTable(c *Ctx, rule string) {
 			case "6":
 				return map[string]string{pack: "yes", pack + ":arg1": "6:pkg/slayers.SCMPType",
 					pack + ":arg4": "true", "local:complit.IA": "sym:recv.d.localIA",
-					"local:complit.Ingress": "sym:uint64(recv.ingressFromLink)",
+					"local:complit.Ingress": "sym:uint64(recv.ingressFromLink) || sym:uint64(invoke:router.Link.IfID(arg0.Link; ))",
 					"local:complit.Egress":  "sym:uint64(recv.pkt.egress)", tr: ""}
 			}
 			return nil
